@@ -179,3 +179,16 @@ check(
     'Injectivity decided by a 128-bit digest of the byte image over the enumerated universe.',
     'DESIGN.md 3/C16',
 )
+check(
+    'C02',
+    'exhaustive enumeration of action trees, of all interleavings (merges) of per-environment operation lists, and of all iteration orders of set-typed parameters; cross-process digest comparison over PYTHONHASHSEED values',
+    'Twin environments (same data, same seed) are compared at every node of the complete action tree to depth 2-3 '
+    '(thorough 3-4) and along shortest paths to every reachable cell, together with a debug-flag-off twin and a '
+    'tripwire that detects any draw from / perturbation of the library generator, numpy global state or the random '
+    'module after every operation; all 25 200 merges of the operation lists of two equally seeded environments, an '
+    'unseeded one and global-noise operations must leave each seeded history equal to its solo run; set-typed '
+    'parameters are passed as a set subclass iterating in each of the n! orders; trajectory digests are compared '
+    'across fresh interpreter processes with different PYTHONHASHSEED.',
+    'Seeds and hash seeds are finite sets rotated by VERIF_SEED; GymEnvironment.seed() out of scope.',
+    'DESIGN.md 3/C02',
+)
